@@ -260,7 +260,17 @@ VCLAUSE(determinism, 400, 3000, 60000, "the sequence interleaves at least three 
 				case 3:
 				{
 					std::vector<double> means = {o.p2, o.p2 * 3, 0.0, o.p3};
+					// the list overload draws from the generator passed to it, one value per mean, like the scalar calls in the same order
+					std::mt19937 twin = g, before = g;
+					std::vector<unsigned> expect;
+					for(double m : means)
+						expect.push_back(Sample_Poisson(twin, m));
 					std::vector<unsigned> v = Sample_Poisson(g, means);
+					// (the order in which the means are served is not promised: agreement with the scalar calls in list order is counted; that
+					// the generator passed in was drawn from is required - three of the four means are positive)
+					VCHECK(!(g == before), "Sample_Poisson(list) returned " << v.size() << " samples without advancing the generator passed to it");
+					if(v == expect && g == twin)
+						c.cls("poisson_list_equals_scalar_calls_in_order");
 					VCHECK(v.size() == means.size(), "Sample_Poisson(list) returned " << v.size() << " values");
 					VCHECK(v[2] == 0, "Sample_Poisson with mean 0 returned " << v[2]);
 					for(auto x : v)
@@ -491,6 +501,13 @@ VCLAUSE(law_general, 60, 600, 6000, "a loose rejection envelope (yMax >= 10 max 
 	{
 		Target T = gen_target(s, true);
 		double env = s.coin() ? s.uniform(1, 3) : s.uniform(10, 50);
+		if(s.chance(0.15))
+		{
+			// an envelope typed to a few digits: up to 0.4 % below the true maximum, which the sampler tolerates (it objects beyond 1 %); the
+			// law is then off by less than 3e-4 in Kolmogorov distance, far below the resolution of the test
+			env = 1.0 - s.uniform(0, 0.004);
+			c.cls("envelope_undershoots_by_less_than_half_a_percent");
+		}
 		if(env >= 10 || T.name == "two_mode_mixture")
 			c.nt();
 		n = (int) std::min<double>(n, 6e5 / env);
